@@ -62,3 +62,8 @@ example : ∃ t, runLabels init [.enqueue 7, .wake, .termFlag, .refuse 8, .termS
     t.executed = [7] ∧ t.refused = [8] ∧ t.terminated = false := by decide
 
 end GN.Props.C08
+
+/-! ## The coupled system
+
+Proved in `GN/EventLoop/Combined.lean` (audited with this property): coupled system: in Terminate's drain a received delivery runs no callback; the terminated flags of both components agree.
+Theorems: `GN.EventLoop.Combined.drain_runs_no_callback`, `GN.EventLoop.Combined.terminated_flags_agree`. -/
